@@ -3042,10 +3042,13 @@ def gen_C16(rng):
     ctx.emit(" ".join(parts))
     held.append("ez")
 
+    # the dividend is nowhere zero and never the target of an applyinto: the shortcut
+    # 0/g = 0 skips the zero-divisor check (recorded finding F2 and its EV+ counterpart),
+    # so 0/0 is not generated
+    evcoll("ed", "max", str(rng.choice([1, 2, 4])), [5, 6, 9], rng.randint(1, 3))
+
     def evdivzero():
-        # dividend ex is nowhere zero: the shortcut 0/g = 0 skips the zero-divisor check
-        # (recorded finding F2 and its EV+ counterpart), so 0/0 is not generated
-        ctx.emit("applyinto ep %s ex ez" % rng.choice(["div", "mod"]))
+        ctx.emit("applyinto ep %s ed ez" % rng.choice(["div", "mod"]))
     misuses.append(evdivzero)
     misuses.append(evdivzero)
     rng.shuffle(misuses)
